@@ -76,7 +76,11 @@ func Run(j *job.Job, s *job.Sink) {
 		change := "module d { yang-version 1.1; namespace \"urn:d\"; prefix d; import b { prefix b; }\n  " + strings.Join(ch, "\n  ") + "\n}\n"
 		twinMod := ""
 		if twin != "" {
-			twinMod = "module t { yang-version 1.1; namespace \"urn:t\"; prefix t; import b { prefix b; }" + twin + " }\n"
+			// deviations are applied module by module in name order: the twin's module is named
+			// a or t, so that it comes before or after the changing module d (whichever of two
+			// appends into one shared array comes second wins)
+			tn := []string{"a", "t"}[r.Intn(2)]
+			twinMod = "module " + tn + " { yang-version 1.1; namespace \"urn:" + tn + "\"; prefix " + tn + "; import b { prefix b; }" + twin + " }\n"
 		}
 		cs := map[string]string{"b.yang": base, "z.yang": later, "d.yang": change, "t.yang": twinMod}
 		s.Current(c, cs)
